@@ -50,6 +50,14 @@
 (*          must be built, some value "reject" -> ValueError and obj is    *)
 (*          what it was; built -> field names of FoldM(e.m), read-backs    *)
 (*          as for an assignment.                                          *)
+(*          "faultdump" (Deb822ValueHist.FaultDump): obj.dump(fd) was      *)
+(*          called with a file object of the caller that fails while the   *)
+(*          paragraph is being written (exception at some write, short     *)
+(*          write, text file without text_mode ...): res = "fault" (the    *)
+(*          caller's fault came out as the file object produced it),       *)
+(*          nothing changed, and rb -- a NEW dump of obj made after the    *)
+(*          failed one, read back -- is one paragraph with ALL the field   *)
+(*          names of obj, as after an accepted assignment.                 *)
 (* The reference is HISTORY-FREE (Deb822ValueHist): an event is explained  *)
 (* by the class, the key and the value alone, whatever happened before --  *)
 (*   - acc agrees with Classify(v) where the statement decides ("accept" / *)
@@ -184,16 +192,23 @@ BuildChecks(e) == LET q == After(e) IN
                      <<"others-unchanged", \A o \in 1..Len(ps) : o # e.obj => e.items[o] = ps[o]>>,
                      <<"readback-ws-false", (e.acc /\ q # <<>>) => \A n \in FNames : RBof(e, n) = OneParagraph(q)>>,
                      <<"readback-default", (e.acc /\ q # <<>> /\ AllNoBlank(q)) => \A n \in TNames : RBof(e, n) = OneParagraph(q)>> >>
-AllChecks(e) == IF e.op = "fresh" THEN FreshChecks(e)
+FaultChecks(e) == LET q == ps[e.obj] IN
+                  << <<"fault-comes-out", ~e.acc /\ e.res = "fault">>,
+                     <<"reject-atomic", e.items = ps>>,
+                     <<"readback-ws-false", \A n \in FNames : RBof(e, n) = OneParagraph(q)>>,
+                     <<"readback-default", AllNoBlank(q) => \A n \in TNames : RBof(e, n) = OneParagraph(q)>> >>
+AllChecks(e) == IF e.op = "faultdump" THEN FaultChecks(e)
+                ELSE IF e.op = "fresh" THEN FreshChecks(e)
                 ELSE IF e.op = "build" THEN BuildChecks(e)
                 ELSE IF e.obj = 0 THEN ScratchChecks(e) ELSE Checks(e)
 Explained(e) == LET c == AllChecks(e) IN \A i \in 1..Len(c) : c[i][2]
 Reasons(e)   == LET c == AllChecks(e) IN SelectSeq([i \in 1..Len(c) |-> IF c[i][2] THEN "" ELSE c[i][1]], LAMBDA s : s # "")
 WellFormed(e) == /\ Len(e.items) = Len(ps)
-                 /\ e.op \in {"assign", "fresh", "build"}
+                 /\ e.op \in {"assign", "fresh", "build", "faultdump"}
                  /\ \/ e.op = "assign" /\ e.obj = 0 /\ IsMultiKeyC(e.cls, e.key)
                     \/ e.op = "assign" /\ e.obj \in 1..Len(ps) /\ e.cls = ClsOf(e.obj) /\ ~IsMultiKeyC(e.cls, e.key)
                     \/ e.op = "fresh" /\ e.obj \in 1..Len(ps) /\ e.cls = ClsOf(e.obj)
+                    \/ e.op = "faultdump" /\ e.obj \in 1..Len(ps) /\ e.cls = ClsOf(e.obj) /\ ps[e.obj] # <<>> /\ e.rb.o # <<>>
                     \/ /\ e.op = "build" /\ e.obj \in 1..Len(ps) /\ e.cls = ClsOf(e.obj)
                        /\ \A i \in 1..Len(e.m) : ~IsMultiKeyC(e.cls, e.m[i].k)
 
